@@ -28,6 +28,7 @@ T = {
     "T13s": "T13 environment bounds assumed as World well-formedness: every file shorter than 2^62 bytes, fewer than 2^48 records per file, file ids below 2^62",
     "TKV": "TKV the storage engine behind the KeyValueStorage trait is a map from byte strings to byte strings (prelude/cmd_prelude.rs): set / get / del that return Ok have exactly the map effect; for the Bitcask engine this is what C01 proves of Handle::{put,get,delete} (unit store), but `impl KeyValueStorage for Handle` (three one-line delegations) is linked by inspection, not by the verifier",
     "TSPAWN": "TSPAWN rule R-outline: the closure handed to tokio::task::spawn_blocking is moved verbatim into a method of the same impl block and runs at the call site; awaiting the handle yields its value or a JoinError. Scheduling, cancellation and panics inside the closure are not modelled",
+    "TSELECT": "TSELECT rule R-select: tokio::select! { p1 = f1 => e1, p2 = f2 => e2 } is read as `match <nondeterministic> { 0 => { let p1 = f1.await; e1 } _ => { let p2 = f2.await; e2 } }`; rule R-mut-self: `mut self` becomes a local initialised from self; rule R-tryfrom-call routes Command::try_from(frame) in server.rs through a VERIFIED forwarding wrapper (work-around for a crash of this Verus build); crate::shutdown::Shutdown is a shim (is_shutdown returns a ghost flag, recv returns with the flag set)",
     "TITER": "TITER std::vec::IntoIter (command::Parser) through vstd's IteratorSpec (remaining()); `\"DEL\" == bytes` compares the bytes (bytes: impl PartialEq<Bytes> for &str); std::str::from_utf8 succeeds exactly on utf8_ok input; UTF-8 encodes ASCII text as the same bytes (axiom_ascii_bytes / axiom_string_ascii)",
     "RW": "the rewrite rules of DESIGN.md section 2.2 preserve the meaning of the extracted text (each application is logged in rewrite_rules_applied)",
     "DERIVE": "derive-generated code (Debug, PartialEq, Eq) and thiserror's Display impls are not verified; the From impls for #[from] fields are regenerated literally",
@@ -59,10 +60,12 @@ PROPS = {
     },
     "C06": {
         "units": ["resp", "net", "cmd"], "label_prefixes": ["C06."], "level": "proof",
-        "trusted": ["T1", "T2", "T3", "T4", "T4b", "T5", "T5b", "T6", "T7", "T13", "T13b", "T14", "TKV", "TSPAWN", "TITER", "RW", "DERIVE"],
+        "trusted": ["T1", "T2", "T3", "T4", "T4b", "T5", "T5b", "T6", "T7", "T13", "T13b", "T14", "TKV", "TSPAWN", "TSELECT", "TITER", "RW", "DERIVE"],
         "assumptions": [
             "what is proved, per request: (1) Command::try_from decodes a frame exactly as spec_command says (array of bulk strings, command name compared byte for byte, keys UTF-8, values arbitrary bytes, arity checked) -- C06.decode.*; (2) Get/Set/Del::apply on Ok have written exactly ONE frame, encode(reply(cmd, map before)), flushed it, left the unread input untouched and changed the map to effect(cmd, map before) -- C06.*.reply; DEL counts its keys in turn (del_fold) -- C06.del.count_in_turn; (3) read_frame decodes the first complete frame of the input regardless of how it is segmented and leaves the rest for the next call (C08.read_frame.*, unit net), so pipelined requests are seen one by one in order",
-            "NOT machine-checked: the loop of Handler::run that alternates read_frame / Command::try_from / Command::apply (tokio::select! is a macro outside Verus's reach; server.rs is not extracted). 'exactly one reply per request, in order' for a whole stream therefore rests on reading that loop: it performs the three calls in sequence once per frame and stops at the first error",
+            "(4) Handler::run (src/net/server.rs, verified verbatim after R-select and R-mut-self): for an input that consists of exactly N well-formed requests, in whatever segmentation the stream shim delivers it, an Ok exit has written exactly replies(first `served` requests) in order, nothing else, and changed the map accordingly (C06.run.pairing); served == N when the loop ended because the client closed the stream (C06.run.all_answered_at_clean_end) and served < N only if the shutdown signal had been received (C06.run.no_early_stop); the loop terminates (decreases N - served). theorem_pipeline (C06.pipeline, pure lemma) ties this to commands: the wire image of any list of well-formed commands is such an input and the frame-by-frame replies equal the command-level replies_of / map_of",
+            "R-select reads tokio::select! as a nondeterministic choice of ONE arm whose future runs to completion (a polled-then-dropped read_frame is not modelled; in Handler::run the other arm returns, so nothing it did is observable); Shutdown is a shim with a ghost flag fired(); Listener / Server (accept loop, connection limit, shutdown hand-shake) are not extracted",
+            "an input with trailing garbage or a malformed request is outside the precondition: run returns Err at the first bad frame (not claimed)",
             "an operation of the storage engine that fails ends the connection (apply returns Err before writing a reply); replies after a failed engine call are not specified",
             "termination of the key-collecting loop in `impl TryFrom<Parser> for Del` is not proved (exec_allows_no_decreases_clause): vstd's termination measure for vec::IntoIter needs a precondition that a trait method cannot declare",
             "in unit cmd the contracts of frame.rs and connection.rs are assumed (R-stub-body) because they are verified in units resp and net, which this check also runs",
